@@ -22,7 +22,7 @@ from typing import Any
 
 from .. import core, extract, rewrite
 
-GENERATED: list[str] = ["Catalogue"]
+GENERATED: list[str] = ["Catalogue", "C01Tables"]
 
 PREAMBLE = """\
 from __future__ import annotations
@@ -383,6 +383,7 @@ def run(ctx) -> None:
                     {"kind": "behaviour", "code": code, "idiom": case["body"], "differs": what, "witness": witness_class(args, bool(case["opts"].get("alias")), ra, rb)},
                     {"function": func_src, "rewritten": new_func, "message": dg["msg"], "arguments": [rewrite.canon(x) for x in args], "original": ra, "rewritten_result": rb, "how": how},
                 )
+    rule_correspondence(ctx)
     for k, n in sorted(unapplied.items()):
         res.notes.append(f"not applied x{n}: {k}")
     res.bump("checks_with_executed_rewrite", len(covered_codes))
@@ -394,6 +395,128 @@ def run(ctx) -> None:
         "exceptions are compared as raised-or-not (the property's wording), values with their type",
         "documented caveats (116 negative numbers, 179 iterator result, 147/106/120 disabled-by-default with stated reasons) are excluded as the property says; the table checks the sentence is still in the docstring",
     ]
+
+
+# ------------------------------------------------------------------------------------------
+# the Lean rule table: semantic correspondence (model eval vs CPython) and check correspondence (refurb proposes `new`)
+
+ANN = {None: "int", "int": "int", "bool": "bool", "float": "float", "str": "str", "list": "list[int]", "tuple": "tuple[int, ...]", "type(None)": "None"}
+
+
+def model_pools() -> dict[Any, list[Any]]:
+    scal = [None, True, False, -1, 0, 1, 2, "", "a", "b", "ab", 0.0, -0.0, 1.0, 2.0, "NAN"]
+    return {
+        None: scal,
+        "int": [-2, -1, 0, 1, 2, 5],
+        "bool": [True, False],
+        "float": [0.0, -0.0, 1.0, -2.0, "NAN"],
+        "str": ["", "a", "b", "ab", "ba"],
+        "list": [[], [1], [1, 2], [2, 1], [2, 2, 1], [0], [-1, 3, 3]],
+        "tuple": [(), (1,), (2, 1), (0,)],
+    }
+
+
+def to_val_json(v: Any) -> Any:
+    if v is None:
+        return {"t": "none"}
+    if isinstance(v, bool):
+        return {"t": "bool", "v": v}
+    if isinstance(v, int):
+        return {"t": "int", "v": v}
+    if isinstance(v, float):
+        if math.isnan(v):
+            return {"t": "float", "k": "nan"}
+        if v == 0 and math.copysign(1, v) < 0:
+            return {"t": "float", "k": "negzero"}
+        if v == int(v):
+            return {"t": "float", "k": "whole", "z": int(v)}
+        return None
+    if isinstance(v, str):
+        return {"t": "str", "v": v}
+    if isinstance(v, (list, tuple)):
+        items = [to_val_json(x) for x in v]
+        if any(i is None or i["t"] in ("list", "tuple") for i in items):
+            return None
+        return {"t": "list" if isinstance(v, list) else "tuple", "items": items}
+    return None
+
+
+def rule_correspondence(ctx) -> None:
+    res = ctx.res
+    if not ctx.driver.available():
+        res.disagreements.append({"where": "driver", "reason": "driver executable not built"})
+        return
+    import ast
+
+    rules = ctx.driver.batch([{"verb": "py_rules"}])[0]
+    pools = model_pools()
+    rng = ctx.rng("rules")
+    cap = 60 if ctx.quick else 600
+    reqs, metas = [], []
+    for ri, r in enumerate(rules):
+        var_pools = [pools[t] for _, t in r["vars"]]
+        for combo in product_sample(rng, var_pools, cap):
+            env = {}
+            for (n, _), v in zip(r["vars"], combo):
+                env[n] = float("nan") if v == "NAN" else v  # a fresh NaN object per variable: no identity between operands
+            for which in ("old", "new"):
+                try:
+                    got = eval(r[which], {"__builtins__": __builtins__}, dict(env))  # noqa: S307
+                    vj = to_val_json(got)
+                    impl = {"r": "ok", "v": vj, "truthy": bool(got)} if vj is not None else {"r": "ok", "v": "unrepresentable", "truthy": bool(got)}
+                except Exception:  # noqa: BLE001
+                    impl = {"r": "raised"}
+                reqs.append({"verb": "py_eval", "rule": ri, "which": which, "env": {k: to_val_json(v) for k, v in env.items()}})
+                metas.append((r, which, combo, impl))
+    for a, (r, which, combo, impl) in zip(ctx.driver.batch(reqs), metas):
+        res.case(("py_eval", r["code"], r["label"], which, repr(combo)))
+        res.bump("model_eval_cases")
+        if impl.get("v") == "unrepresentable":
+            continue
+        if a != impl:
+            res.disagree("py_eval", {"rule": f"FURB{r['code']}:{r['label']}", "expr": r[which], "env": repr(combo)}, a, impl)
+    # ---- does refurb really propose `new` for `old`?
+    lines = PREAMBLE.split("\n")
+    spans = []
+    for ri, r in enumerate(rules):
+        sig = ", ".join(f"{n}: {ANN[t]}" for n, t in r["vars"])
+        start = len(lines) + 1
+        lines.append(f"def rule_{ri}({sig}):")
+        if r["cond_pos"]:
+            lines += [f"    if {r['old']}:", "        return 1", "    return 2"]
+        else:
+            lines.append(f"    return {r['old']}")
+        lines.append("")
+        spans.append((start, len(lines) - 1))
+    src = "\n".join(lines) + "\n"
+    with core.scratch("rv-c01r-") as d:
+        (d / "rules.py").write_text(src)
+        (d / "pyproject.toml").write_text("")
+        diags = [x for x in rewrite.lint_with_spans(d, ["rules.py", "--enable-all", "--quiet"]) if "code" in x]
+    for ri, (r, (a, b)) in enumerate(zip(rules, spans)):
+        res.case(("rule-proposed", r["code"], r["label"]))
+        mine = [x for x in diags if a <= x["line"] <= b and x["code"] == r["code"]]
+        label = f"FURB{r['code']}:{r['label']}"
+        if not mine:
+            if r["refuted"]:
+                res.notes.append(f"refuted variant {label} is no longer proposed by refurb: its refutation theorem is about behaviour that is gone")
+            else:
+                res.disagree("rule-not-proposed", {"rule": label, "old": r["old"]}, f"refurb proposes {r['new']}", "no diagnostic")
+            continue
+        new_src, info = rewrite.apply_rewrite(src, mine[0])
+        if new_src is None:
+            res.disagree("rule-unappliable", {"rule": label}, r["new"], info)
+            continue
+        try:
+            fn = next(n for n in ast.parse(new_src).body if isinstance(n, ast.FunctionDef) and n.name == f"rule_{ri}")
+            got_expr = fn.body[0].test if r["cond_pos"] else fn.body[0].value
+            same = ast.dump(got_expr) == ast.dump(ast.parse(r["new"], mode="eval").body)
+        except Exception as e:  # noqa: BLE001
+            res.disagree("rule-unparsable", {"rule": label}, r["new"], repr(e))
+            continue
+        if not same:
+            res.disagree("rule-differs", {"rule": label, "old": r["old"]}, r["new"], ast.unparse(got_expr))
+    res.bump("lean_rules", len(rules))
 
 
 def replay(path) -> int:
